@@ -216,7 +216,8 @@ def resolve_entity(entity):
                 return chr(int(entity[3:-1], 16))
             else:
                 return chr(int(entity[2:-1]))
-        except ValueError:
+        except (ValueError, OverflowError):
+            # OverflowError: code point does not even fit into a C int
             return entity
     else:
         try:
